@@ -858,6 +858,9 @@ func (c *Conn) advanceFrame() (int, error) {
 			errors = append(errors, "data before FIN")
 		}
 		c.readFinal = final
+		// A new message starts here: frames of an abandoned message that were
+		// skipped since the last call to NextReader do not count against it.
+		c.readLength = 0
 	case continuationFrame:
 		if c.readFinal {
 			errors = append(errors, "continuation after FIN")
